@@ -15,6 +15,9 @@ CHECKS = {
  "C06": ("must-pass-through path search on the SSA CFG of both writers' flush functions (header puts / commits / bitmap puts keyed by the resolved key variables) + dominating-guard and error-flow rules in the open function",
          "Static, for every crash point at commit granularity: on no path can a transaction holding the schema or row counter be committed before the last bitmap put; the two header keys share a transaction and every success return has committed them; the open function nil-guards the bucket, length-guards every binary decode and propagates decode errors. So every committed prefix is rejected by OpenIndex with an error, on all paths including ones that need a crash to execute.",
          "Not decided: equality of answers of a completely written file (C05); sub-transaction crash points. Trusted: bbolt commit atomicity, gob fails on an empty schema item.", "DESIGN.md §4 C06"),
+ "C09": ("typestate of the lexer channel (close on every exit of the goroutine, drain deferred on every path of ParseQuery) + edge-cut path search for the end-of-input test with NORETURN summaries + value-range provenance of the placeholder number + table of panic operand types",
+         "Static, for every input string: no parse can leave the lexer goroutine blocked; no query is returned on a path that has not seen the end-of-input token; the placeholder number cannot wrap when narrowed to int32; every panic raised by the parser is an error value caught by ParseQuery's recover handler.",
+         "Not decided: language equality with the EBNF and tree shape; runtime-panic freedom of the lexer's index arithmetic; termination (all need numeric/language reasoning not available statically here).", "DESIGN.md §4 C09"),
  "C15": ("constant-option evaluation of the open hook + dominating nil/length guards + error-flow + must-pass-through (Close before every error return) on the open functions",
          "Static, for every damaged file and every open/close sequence: OpenIndex cannot create a missing file; every dereference/decoding of file contents while opening is dominated by the matching guard and every decode error is propagated; every error return of the open function is preceded by a Close of the handle on all paths; Index.Close is nil-guarded and resets the handle.",
          "Not decided: which byte patterns fail to decode; panics inside bbolt/roaring on malformed bytes (trusted not to occur).", "DESIGN.md §4 C15"),
